@@ -117,7 +117,56 @@ pub fn external_case(cfg: &Config, tmp: &std::path::Path, idx: u64, r: &mut Rng,
     o.two_arities = r.chance(1, 4);
     o.preamble_names = r.chance(1, 6);
     o.sorted_constants = r.chance(1, 3);
-    let (t, _sig) = gen_external(r, &o);
+    let named = r.chance(1, 3);
+    if named {
+        o.max_privates = 0;
+    }
+    let (mut t, _sig) = gen_external(r, &o);
+    if named {
+        // user-chosen formula names, several formulas with the same name, and names that look
+        // like the ones a renaming scheme would produce (`x`, `x_2`, `formula_3_x`)
+        if r.chance(2, 3) {
+            if let Some(spec) = crate::monitors::c02::derive_spec(&t, r) {
+                t.left = Either::Right(spec);
+            }
+        }
+        let base = ["x", "bound", "_n", "formula"][r.upto(4)];
+        let mut pick = |r: &mut Rng| -> String {
+            match r.below(6) {
+                0 | 1 => base.to_string(),
+                2 | 3 => format!("{base}_{}", r.upto(12)),
+                4 => format!("formula_{}_{base}", r.upto(12)),
+                _ => format!("{base}_{}_{}", r.upto(12), r.upto(12)),
+            }
+        };
+        let mut decorate = |r: &mut Rng, text: &str| -> String {
+            text.lines()
+                .map(|l| {
+                    for role in ["spec", "assumption", "lemma"] {
+                        if l.starts_with(role) && !l.contains('[') && r.chance(3, 4) {
+                            if let Some(c) = l.find(':') {
+                                return format!("{}[{}]{}", &l[..c], pick(r), &l[c..]);
+                            }
+                        }
+                    }
+                    l.to_string()
+                })
+                .collect::<Vec<_>>()
+                .join("\n")
+        };
+        if let Either::Right(s) = &t.left {
+            t.left = Either::Right(decorate(r, s));
+        }
+        t.ug = decorate(r, &t.ug);
+        let mut po = Vec::new();
+        for _ in 0..r.upto(5) {
+            let dir = ["", "(forward)", "(backward)", "(universal)"][r.upto(4)];
+            let k = r.upto(4);
+            po.push(format!("lemma{dir}: {k} = {k}."));
+        }
+        t.po = decorate(r, &po.join("\n"));
+        st.inc("external_tasks_with_named_formulas");
+    }
     let parsed = match parse_ext(&t) {
         Ok(p) => p,
         Err(_) => {
@@ -138,12 +187,14 @@ pub fn external_case(cfg: &Config, tmp: &std::path::Path, idx: u64, r: &mut Rng,
                 let d = tmp.join(format!("t{idx}"));
                 let out = d.join("out");
                 std::fs::create_dir_all(&out).unwrap();
-                std::fs::write(d.join("a.1.lp"), match &t.left { Either::Left(s) | Either::Right(s) => s }).unwrap();
+                let first = if t.left.is_left() { "a.1.lp" } else { "a.1.spec" };
+                std::fs::write(d.join(first), match &t.left { Either::Left(s) | Either::Right(s) => s }).unwrap();
+                std::fs::write(d.join("a.po"), &t.po).unwrap();
                 std::fs::write(d.join("a.2.lp"), &t.right).unwrap();
                 std::fs::write(d.join("a.ug"), &t.ug).unwrap();
                 let mut args: Vec<String> = vec!["verify".into(), "--equivalence".into(), "external".into(), "--no-proof-search".into(), "--save-problems".into(), out.to_str().unwrap().into()];
                 args.extend(flags.cli_args());
-                for f in ["a.1.lp", "a.2.lp", "a.ug"] {
+                for f in [first, "a.2.lp", "a.ug", "a.po"] {
                     args.push(d.join(f).to_str().unwrap().into());
                 }
                 let argv: Vec<&str> = args.iter().map(|s| s.as_str()).collect();
